@@ -63,6 +63,10 @@ type modelState struct {
 	extraVars      []*smt.Term
 	civilSeq       int
 	splitCalendar  bool
+	exactFloat     bool
+	fpSh           map[int]fpShadow
+	fpShB          *smt.Builder
+	fpOpaque       map[int]bool
 	civilMemo      map[int][3]*smt.Term
 	pureMemo       map[*ssa.BasicBlock]bool
 	IfConverted    int
@@ -77,6 +81,7 @@ func (ex *Exec) modelReset() {
 	ex.extraVars = nil
 	ex.civilSeq = 0
 	ex.splitCalendar = false
+	ex.exactFloat = false
 	ex.civilMemo = nil
 }
 
